@@ -26,6 +26,7 @@ var c20Files = map[string]string{
 	"g2.xml":         "<doc><a>alpha</a><a>beta</a><b><a>gamma</a></b></doc>",
 	"g3.xml":         "<r><!-- c\nd --><?pi a\nb?><a>x</a></r>",
 	"g4.xml":         "<r><e/><e>two</e><e a=\"\">three</e><!----><a></a><a>last</a></r>",
+	"g5%d.xml":       "<r p=\"5%\"><a>100% d%s %v%%</a><!--%d--><?pi %s?><a>%</a></r>",
 	"d.json":         `{"a": [1, 2.5, "x"], "b": {"a": true}}`,
 	"p.html":         "<!doctype html><html><body><a href=\"u\">link</a><p>para<b>bold</b></p><!--hc--></body></html>",
 	"bad.xml":        "<r><a></r>",
@@ -67,7 +68,7 @@ func (f c20Flags) args() []string {
 	return a
 }
 
-var c20Exprs = []string{"/*", "//a", "//@*", "//text()", "//comment()", "//processing-instruction()", "count(//*)", "string(//@*)", "//nosuch", "1 = 1", "//p:b", "$v", "concat($v, '!', count(//a))", "//namespace::*", "//a | //b", "/", "//a/ancestor::*", "//*[last()]", "((", "//e", "//*[not(node())]", "//@a | //e", "//comment() | //a", "//e[1]"}
+var c20Exprs = []string{"/*", "//a", "//@*", "//text()", "//comment()", "//processing-instruction()", "count(//*)", "string(//@*)", "//nosuch", "1 = 1", "//p:b", "$v", "concat($v, '!', count(//a))", "//namespace::*", "//a | //b", "/", "//a/ancestor::*", "//*[last()]", "((", "//e", "//*[not(node())]", "//@a | //e", "//comment() | //a", "//e[1]", "concat('5%', 'd')"}
 
 // c20Type mirrors the documented type detection: -t, else the extension's media type.
 func c20Type(path string, flagT string) (string, string) {
@@ -353,6 +354,7 @@ func C20(c *run.Check) {
 		{"missing file", []string{"nope.xml", "g2.xml"}, ""},
 		{"newlines in comments and PIs", []string{"g3.xml", "g2.xml"}, ""},
 		{"first selected node has an empty string value", []string{"g4.xml", "g1.xml"}, ""},
+		{"percent signs in file names and values", []string{"g5%d.xml", "g2.xml"}, ""},
 	}
 	var flags []c20Flags
 	for m := 0; m < 16; m++ {
@@ -601,7 +603,7 @@ func C20(c *run.Check) {
 	c.Sample(map[string]interface{}{"args": []string{"-a", "-n", "-x", "//a", "g1.xml", "g2.xml"}, "files": "see rule"})
 	c.Sample(map[string]interface{}{"args": []string{"-m", "-r", "-x", "/*", "sub", "g1.xml"}})
 	c.Set("runs", len(jobs))
-	c.Rule = fmt.Sprintf("the freshly built xsel command run as a subprocess on a generated directory tree (2 good XML files with namespaces/attributes/multi-line text/comment/PI, JSON, HTML, malformed XML and JSON, HTML without doctype, .txt, extension-less, nested directories, a dangling symlink, a missing file, stdin) for %d argument sets x %d flag combinations (-a -m -n -r, -t none/xml/html/json, -s/-v) x %d expressions: per input the expected block is derived from the library API on the same bytes (nothing for an empty node-set; string value; -a one record per node; -m one single-line record per node whose text, parsed back by the harness, equals the selected node's subtree with expanded names; 'path: ' prefix unless -n/stdin; type detection; a diagnostic naming each bad input on stderr); stdout must be a concatenation of exactly these blocks in some order", len(argsets), len(flags), len(c20Exprs))
+	c.Rule = fmt.Sprintf("the freshly built xsel command run as a subprocess on a generated directory tree (2 good XML files with namespaces/attributes/multi-line text/comment/PI, JSON, HTML, malformed XML and JSON, HTML without doctype, .txt, extension-less, a file with % in its name and values, nested directories, a dangling symlink, a missing file, stdin) for %d argument sets x %d flag combinations (-a -m -n -r, -t none/xml/html/json, -s/-v) x %d expressions: per input the expected block is derived from the library API on the same bytes (nothing for an empty node-set; string value; -a one record per node; -m one single-line record per node whose text, parsed back by the harness, equals the selected node's subtree with expanded names; 'path: ' prefix unless -n/stdin; type detection; a diagnostic naming each bad input on stderr); stdout must be a concatenation of exactly these blocks in some order", len(argsets), len(flags), len(c20Exprs))
 	c.Assume("the statement fixes no order of files, so blocks are matched as a multiset; attribute and namespace nodes under -m are only required to yield one line carrying their name and value")
 }
 
